@@ -1,6 +1,6 @@
 (* The only file with extraction directives.  Compiled by ./check in build/extract. *)
 From Coq Require Import Extraction ExtrOcamlBasic ExtrOcamlZBigInt.
-From TSS Require Import Base.Outcome Base.Bytes Base.ZMod Base.GoInt Model.Framing Model.Builder Model.Poly Model.Group Model.Curve Model.Paillier Model.Schnorr Model.MtA Model.ZKMod Model.Engine Model.SignAlg Model.CKD Model.KeyStore.
+From TSS Require Import Base.Outcome Base.Bytes Base.ZMod Base.GoInt Model.Framing Model.Builder Model.Poly Model.Group Model.Curve Model.Paillier Model.Schnorr Model.MtA Model.ZKMod Model.Engine Model.SignAlg Model.CKD Model.KeyStore Model.SafePrime.
 Extraction Language OCaml.
 Extraction "model.ml"
   Framing.sha512_256 Framing.sha512_256i Framing.sha512_256i_tagged Framing.sha512_256i_one
@@ -17,5 +17,6 @@ Extraction "model.ml"
   MtA.alice_prove MtA.alice_verify MtA.bob_prove MtA.bob_verify MtA.alice_init MtA.bob_mid MtA.alice_end
   ZKMod.fac_prove ZKMod.fac_verify ZKMod.mod_prove ZKMod.mod_verify ZKMod.dln_prove ZKMod.dln_verify
   CKD.derive_child CKD.derive_hierarchy CKD.xkey_string SignAlg.ecdsa_sign SignAlg.ecdsa_finalize SignAlg.ecdsa_verify SignAlg.recover SignAlg.eddsa_sign SignAlg.kg_shares SignAlg.kg_pub SignAlg.kg_bigx SignAlg.kg_secret SignAlg.reshare_polys SignAlg.rs_shares SignAlg.sign_weights
+  SafePrime.rand_int SafePrime.must_rand_int SafePrime.get_random_positive_int SafePrime.get_random_rel_prime SafePrime.get_random_qr_generator SafePrime.get_random_qnr SafePrime.safe_primes SafePrime.draw_preparams SafePrime.gen_ntildei SafePrime.mask_q
   KeyStore.krun KeyStore.load KeyStore.save
   Engine.init_state Engine.start Engine.deliver Engine.waiting Engine.finished Engine.running.
